@@ -22,10 +22,10 @@ PROPS = {
         assumptions=["tag numbers <= 30 for parsing (the property's domain); content lengths < 2^64; nesting <= 100 constructed levels (limit of the repaired parser)"],
     ),
     "C06": dict(
-        groups=[("frame", 2000, 120000)],
+        groups=[("frame", 2000, 120000), ("conn", 300, 20000)],
         rule="streams of 1-6 well-formed LDAPMessages (16-message corpus, independent encoder, random legal length forms, entries beyond "
              "Framed's 8 KiB buffer) x partitions: sampled/all 2^13 partitions of a 14-byte two-message stream, one read, byte at a time, "
-             "one and two random cut points, random small chunks, truncated streams. non-trivial = distinct (stream, partition) with at least one delivery",
+             "one and two random cut points, random small chunks, truncated streams; plus the connection scripts (responses through the real Framed<_, LdapCodec> of a live connection: two writes per message, bursts cut at an arbitrary byte, tails arriving together with the next message). non-trivial = distinct (stream, partition) with at least one delivery",
         trivial=["need:0", "error", "end"],
         trusted=["modelled not verified: tokio_util::codec::Framed as append-then-decode loop; BytesMut"],
         assumptions=["messages are well-formed LDAPMessage envelopes in definite-length BER nested <= 100 levels"],
@@ -136,7 +136,7 @@ PROPS = {
         assumptions=["callers on several threads are modelled by the Alloc / Enqueue split of Start (id taken under the shared mutex, request handed to the driver later; exercised on the real code through the hook verif_hold_next_alloc); true parallelism inside next_msgid itself is the mutex's business (oracle-only mt lane)", "theorems over whole histories: below the wrap-around of the 31-bit id counter (beyond it: the id-table hook lane)"],
     ),
     "C12": dict(
-        groups=[("conn", 600, 40000), ("stall", 24, 600)],
+        groups=[("conn", 600, 40000), ("stall", 24, 600), ("req", 400, 30000)],
         exact_lanes=["msgid"],
         rule="scripts of 3-16 steps over the real driver (current-thread runtime, paused clock, in-memory transport): start single/direct-search/adapted-search/abandon/unbind operations on cloned handles with and without timeouts (0, 1, 1000, 5000 ms), one start in five held between id allocation and the send to the driver while other operations overtake it, server responses for live, finished and unknown ids (entries, references, intermediates, done, other ops) delivered in two writes, clock advances around the deadlines, next()/finish() calls, EOF / garbage / read error / write error / partial message / handle drop; observation after EVERY step (per-op status and delivered tokens, request log, id table, routing gauges, driver result). non-trivial = distinct script in which at least one operation completed. one script in four gives every operation a timeout",
         trivial=[],
@@ -152,7 +152,7 @@ PROPS = {
         assumptions=["callers on several threads are modelled by the Alloc / Enqueue split of Start (id taken under the shared mutex, request handed to the driver later; exercised on the real code through the hook verif_hold_next_alloc); true parallelism inside next_msgid itself is the mutex's business (oracle-only mt lane)", "theorems over whole histories: below the wrap-around of the 31-bit id counter (beyond it: the id-table hook lane)"],
     ),
     "C10": dict(
-        groups=[("stream", 2000, 150000), ("conn", 300, 20000), ("pagedstop", 400, 30000), ("pagedlost", 150, 6000)],
+        groups=[("stream", 2000, 150000), ("conn", 300, 20000), ("pagedstop", 400, 30000), ("pagedlost", 150, 6000), ("paged", 300, 20000)],
         exact_lanes=["stream", "paged"],
         rule="server scripts of 0-7 items (entries, references with 1-2 URIs, intermediate responses) ending with a SearchResultDone (rc 0/4/10/32/53, 0-2 referral URIs, 0-2 controls), all delivered before the first call, x call sequences of 0-17 next()/finish()/state() calls in any order including past the end, on direct streams, EntriesOnly-adapted streams and Ldap::search(); plus connection scripts where items arrive between calls. non-trivial = distinct case with at least one call",
         trivial=[],
